@@ -118,7 +118,7 @@ PROPS = {
         engines=[dict(engine="stream", pkg=NETC, test="TestVerifStream", n_quick=10, n_thorough=120),
                  dict(engine="unreach", pkg=NETC, test="TestVerifUnreach", n_quick=150, n_thorough=1500)],
         corr_ops={"stream": ["transfer"], "unreach": ["deliver", "churn"]},
-        facts=["bridge_loop", "bridge_conns", "stream_first_byte", "stream_close", "stream_readfrom_copy", "unreach_dial_cancel"],
+        facts=["bridge_loop", "bridge_conns", "stream_first_byte", "stream_close", "stream_readfrom_copy", "stream_quic_adapter", "unreach_dial_cancel"],
         trusted=["quic-go: reliable, ordered delivery with retransmission over lossy, duplicating, reordering datagram links is the "
                  "library's; it is exercised on every run (1..4 hops, loss up to 8 %, duplication, delays up to 30 ms, a cut of the "
                  "active path with a dearer alternative) but not modelled — the theorems are about Receptor's own relay loop",
